@@ -81,7 +81,7 @@ void mask_unary(const char* type, const char* opname, const std::vector<uint64_t
     if (!begin_cell("C03", type, opname)) return;
     Cell& c = cell();
     for (uint64_t a : pats) {
-        uint64_t got = 0; bool ok = false;
+        uint64_t got = 0; volatile bool ok = false;
         uint32_t cls = mcls(a, full);
         VK_GUARDED(cls, ("a=" + hex(a)), { got = op(typename V::mask(MB<W>::from(a))); ok = true; });
         c.cases++; c.cls_add(cls | 0x10);
@@ -102,7 +102,7 @@ void mask_binary(const char* type, const char* opname, const std::vector<std::pa
     if (!begin_cell("C03", type, opname)) return;
     Cell& c = cell();
     for (auto& p : pairs) {
-        uint64_t got = 0; bool ok = false;
+        uint64_t got = 0; volatile bool ok = false;
         uint32_t cls = mcls(p.first, full) | (mcls(p.second, full) << 4) | ((p.first == p.second ? 1u : 0u) << 8);
         VK_GUARDED(cls, ("a=" + hex(p.first) + ",b=" + hex(p.second)), { got = op(typename V::mask(MB<W>::from(p.first)), typename V::mask(MB<W>::from(p.second))); ok = true; });
         c.cases++; c.cls_add(cls | 0x1000 >> 4);
@@ -191,7 +191,7 @@ void run_c03(const char* type) {
         if (begin_cell("C03", type, "extract")) {
             Cell& c = cell();
             for (uint64_t a : pats) {
-                uint64_t got = 0; bool ok = false; uint32_t cls = mcls(a, full);
+                uint64_t got = 0; volatile bool ok = false; uint32_t cls = mcls(a, full);
                 VK_GUARDED(cls, ("a=" + hex(a)), { M m(MB<W>::from(a)); for (unsigned i = 0; i < W; ++i) if (ex[i](m)) got |= 1ull << i; ok = true; });
                 c.cases++; c.cls_add(cls | 0x10);
                 if (c.cases <= 2) add_sample("extract<0.." + std::to_string(W - 1) + ">(mask " + hex(a) + ")");
@@ -207,7 +207,7 @@ void run_c03(const char* type) {
             if (ip.size() * W > (big ? 40000000u : 1500000u)) { std::vector<uint64_t> t; uint64_t step = ip.size() * W / (big ? 40000000 : 1500000) + 1; for (uint64_t i = 0; i < ip.size(); i += step) t.push_back(ip[i]); t.push_back(0); t.push_back(full); ip = t; }
             for (uint64_t a : ip) {
                 for (unsigned i = 0; i < W && c.traps < 1000; ++i) for (int b = 0; b < 2; ++b) {
-                    uint64_t got = 0; bool ok = false; uint32_t cls = mcls(a, full) | (b ? 0x10 : 0x20) | (((a >> i) & 1) ? 0x100 : 0x200);
+                    uint64_t got = 0; volatile bool ok = false; uint32_t cls = mcls(a, full) | (b ? 0x10 : 0x20) | (((a >> i) & 1) ? 0x100 : 0x200);
                     VK_GUARDED(cls, ("a=" + hex(a) + ",I=" + std::to_string(i) + ",b=" + std::to_string(b)), { got = obs<V>(in[i](M(MB<W>::from(a)), b != 0)); ok = true; });
                     c.cases++; c.cls_add(cls);
                     if (c.cases <= 2) add_sample("insert<" + std::to_string(i) + ">(mask " + hex(a) + "," + (b ? "true" : "false") + ")");
@@ -230,7 +230,7 @@ void run_c03(const char* type) {
             for (uint64_t base = 0; base < n; base += W) {
                 std::array<T, V::width> a;
                 for (unsigned i = 0; i < W; ++i) a[i] = vals[(base + i + rot * 5) % n];
-                uint64_t got = 0, exp = 0; bool ok = false;
+                uint64_t got = 0, exp = 0; volatile bool ok = false;
                 uint32_t cls = ValGen<T>::cls(a[0]);
                 VK_GUARDED(cls, ("a0=" + hex(a[0])), { got = obs<V>(M(V(a))); ok = true; });
                 c.cases++; c.cls_add(cls);
